@@ -32,6 +32,7 @@ TIMEOUT = {'quick': 600, 'thorough': 3000}
 MIN_NONTRIVIAL = {'quick': 2000, 'thorough': 50000}
 
 LATENCY_BOUND_BITS = 16          # accepted -> delivered, in bit periods (probe: worst 11.75)
+STALL_TOLERATED_BITS = 8         # longest receiver stall used by the stall pacing classes, in bit periods (see run_check)
 STALL_BOUND_BITS = 16            # a byte offered this long without being accepted = producer stalled (inconclusive)
 QUICK_RATIOS = [(4, 1), (5, 1), (6, 1), (8, 1), (16, 1)]
 WIDE_RATIOS = [(4, 1), (17, 4), (9, 2), (5, 1), (6, 1), (7, 1), (8, 1), (9, 1), (10, 1), (50e6, 115200 * 40), (12, 1),
@@ -128,6 +129,23 @@ def rle(bits):
     return out
 
 
+def eof_stall_schedule(case, rnd):
+    """'ready low from end-of-frame for 2..8 bit periods, then high': a dry run with an always-ready receiver gives the
+    cycles at which each byte completes (ready cannot influence the transmit side, so they are the same in the real
+    run); the schedule built from them is a function of time only."""
+    period = realised_period(case['fs'], case['fu'])
+    dry = simulate(dict(case, ready=dict(mode='always', maxgap=0), ready_rle=None), None)
+    dl = [t for t in range(dry['cycles']) if dry['dv'][t] and dry['dr'][t]]
+    bits = [1] * (dry['cycles'] + (STALL_TOLERATED_BITS + 2) * period)
+    for t in dl:
+        if rnd.random() < 0.15:
+            continue
+        L = rnd.randrange(2 * period, STALL_TOLERATED_BITS * period + 1)
+        for u in range(max(0, t - 2 - rnd.randrange(0, 3)), t - 2 + L):     # the finished byte is loaded at the edge before t-1
+            bits[u] = 0
+    return rle(bits)
+
+
 def simulate(case, rnd=None):
     """Run the real blocks on one case; returns the recorded per-cycle traces.
 
@@ -137,7 +155,10 @@ def simulate(case, rnd=None):
     period = realised_period(fs, fu)
     data, gaps = case['data'], case['gaps']
     rd = case['ready']
-    ready = Ready(rd['mode'], rd['maxgap'], rnd, case.get('ready_rle'))
+    ready_rle = case.get('ready_rle')
+    if rd['mode'] == 'eof_stall' and ready_rle is None:
+        ready_rle = eof_stall_schedule(case, rnd)
+    ready = Ready(rd['mode'], rd['maxgap'], rnd, ready_rle)
     hw, sim, W = build(fs, fu, case.get('order', 0))
     s_valid, s_v, s_ready, txw = W['s_valid'], W['s_v'], W['s_ready'], W['tx']
     d_ready, d_valid, d_v, rsw = W['d_ready'], W['d_valid'], W['d_v'], W['rx_sample']
@@ -147,7 +168,8 @@ def simulate(case, rnd=None):
     gap = gaps[0] if gaps else 0
     offered_since = None
     last_acc = None
-    tail = (LATENCY_BOUND_BITS + 4) * period
+    bound_bits = LATENCY_BOUND_BITS + rd.get('stall_bits', 0)      # the deadline is extended by the longest receiver stall
+    tail = (bound_bits + 4) * period
     stall = None
     t = 0
     with muted():
@@ -179,6 +201,7 @@ def simulate(case, rnd=None):
             if i >= len(data) and (last_acc is None or t > last_acc + tail):
                 break
     tr['period'] = period
+    tr['bound_bits'] = bound_bits
     tr['stall'] = stall
     tr['cycles'] = len(tx)
     return tr
@@ -293,9 +316,9 @@ def judge(tr):
                 findings.append(dict(clause='delivery', kind='before_acceptance', relation='none', index=k, expected='> 0',
                                      observed=dt, what='byte %d delivered %d cycles before/at its acceptance' % (k, -dt)))
                 break
-            if dt > LATENCY_BOUND_BITS * period:
+            if dt > tr.get('bound_bits', LATENCY_BOUND_BITS) * period:
                 findings.append(dict(clause='delivery', kind='late', relation='none', index=k,
-                                     expected='<= %d cycles' % (LATENCY_BOUND_BITS * period), observed=dt,
+                                     expected='<= %d cycles' % (tr.get('bound_bits', LATENCY_BOUND_BITS) * period), observed=dt,
                                      what='byte %d delivered %d cycles (%.2f bit periods) after acceptance' % (k, dt, dt / period)))
                 break
     obs['latencies'] = lat
@@ -408,14 +431,21 @@ def plan(tier, seed):
                 specs.append(dict(fs=fs, fu=fu, kind=['repeats', 'random', 'special', 'repeats'][rep], n=20,
                                   gap=gapmodes[j % 5], ready=readymodes[(j // 5 + j) % 3], order=j % 3))
                 j += 1
+        for k, (fs, fu) in enumerate(WIDE_RATIOS):       # receiver stalls the real link tolerates (bursts and idle gaps)
+            specs.append(dict(fs=fs, fu=fu, kind='random', n=24, gap='none', ready='eof_stall', order=k % 3))
+            specs.append(dict(fs=fs, fu=fu, kind='repeats', n=24, gap=['none', 'one'][k % 2], ready='sparse', order=(k + 1) % 3))
+            specs.append(dict(fs=fs, fu=fu, kind='random', n=16, gap=['mixed', 'rand', 'phase'][k % 3],
+                              ready=['rand_long', 'eof_stall', 'sparse'][k % 3], order=(k + 2) % 3))
+            specs.append(dict(fs=fs, fu=fu, kind='special', n=24, gap='none', ready='rand_long', order=k % 3))
     else:
+        readymodes = readymodes + ['eof_stall', 'sparse', 'rand_long']
         ratios = [(r, 1) for r in range(4, 41)] + [(17, 4), (9, 2), (50e6, 115200 * 40), (33, 2), (50e6, 115200 * 20), (123, 10)]
         for fs, fu in ratios:
             specs.append(dict(fs=fs, fu=fu, kind='perm256', n=256, gap='none', ready='always', order=0))
             specs.append(dict(fs=fs, fu=fu, kind='perm256', n=256, gap='phase', ready='worst', order=1))
             for j in range(298):
                 specs.append(dict(fs=fs, fu=fu, kind=['repeats', 'random', 'special'][j % 3], n=40, gap=gapmodes[j % 5],
-                                  ready=readymodes[(j // 5) % 3], order=j % 3))
+                                  ready=readymodes[(j // 5) % 6], order=j % 3))
     for k, s in enumerate(specs):
         s['id'] = k
     return specs
@@ -426,8 +456,17 @@ def expand(spec, seed):
     period = realised_period(spec['fs'], spec['fu'])
     data = make_data(spec['kind'], spec['n'], rnd)
     gaps = make_gaps(spec['gap'], len(data), period, rnd)
+    rr = rng(seed, 'C17', 'readycfg', spec['id'])
+    if spec['ready'] == 'eof_stall':       # low from end-of-frame for 2..8 bit periods, then high
+        ready = dict(mode='eof_stall', name='eof_stall', maxgap=STALL_TOLERATED_BITS * period, stall_bits=STALL_TOLERATED_BITS + 1)
+    elif spec['ready'] == 'sparse':        # ready for one clock every P clocks, P <= 4 bit periods (the block needs to see it twice)
+        ready = dict(mode='worst', name='sparse', maxgap=rr.randrange(period, 4 * period + 1) - 1, stall_bits=STALL_TOLERATED_BITS + 1)
+    elif spec['ready'] == 'rand_long':     # random not-ready runs up to 4 bit periods
+        ready = dict(mode='rand', name='rand_long', maxgap=4 * period, stall_bits=STALL_TOLERATED_BITS + 1)
+    else:
+        ready = dict(mode=spec['ready'], name=spec['ready'], maxgap=period // 2)
     case = dict(fs=spec['fs'], fu=spec['fu'], order=spec['order'], data=data, gaps=gaps,
-                ready=dict(mode=spec['ready'], maxgap=period // 2), gap_mode=spec['gap'], kind=spec['kind'])
+                ready=ready, gap_mode=spec['gap'], kind=spec['kind'])
     return case, rng(seed, 'C17', 'ready', spec['id'])
 
 
@@ -447,11 +486,11 @@ def report(run, case, tr, findings):
     for f in findings[:2]:
         key = 'c17_%s_%s' % (f['clause'], f['kind'])
         fields = dict(clause=f['clause'], kind=f['kind'], relation=f['relation'], ratio_class=ratio_class(fs, fu),
-                      gap_mode=case.get('gap_mode'), ready_mode=case['ready']['mode'])
+                      gap_mode=case.get('gap_mode'), ready_mode=case['ready'].get('name', case['ready']['mode']))
         rc = shrink_for_replay(case, tr, f)
         run.violation(key, fields, rc, expected=f['expected'], observed=f['observed'],
                       what='fs/fu=%s/%s (bit period %d clocks) gap=%s ready=%s: %s' % (
-                          fs, fu, tr['period'], case.get('gap_mode'), case['ready']['mode'], f['what']))
+                          fs, fu, tr['period'], case.get('gap_mode'), case['ready'].get('name', case['ready']['mode']), f['what']))
 
 
 def run_case(run, case, rnd, agg):
@@ -478,7 +517,7 @@ def run_case(run, case, rnd, agg):
     prev = -1
     rkey = '%s/%s' % (fs, fu)
     for t, v in acc:
-        run.nt(hash((rkey, v, prev, t % period, case.get('gap_mode'), case['ready']['mode'])))
+        run.nt(hash((rkey, v, prev, t % period, case.get('gap_mode'), case['ready'].get('name', case['ready']['mode']))))
         prev = v
     agg['back_to_back'] += obs['valid_held_acceptances']
     for x in obs['latencies']:
@@ -499,7 +538,12 @@ def run_case(run, case, rnd, agg):
     if obs['latencies']:
         r['max_latency_bits'] = max(r['max_latency_bits'], max(obs['latencies']) / period)
     agg['gap_modes'][case.get('gap_mode')] = agg['gap_modes'].get(case.get('gap_mode'), 0) + obs['accepted']
-    agg['ready_modes'][case['ready']['mode']] = agg['ready_modes'].get(case['ready']['mode'], 0) + obs['accepted']
+    rname = case['ready'].get('name', case['ready']['mode'])
+    agg['ready_modes'][rname] = agg['ready_modes'].get(rname, 0) + obs['accepted']
+    if obs['latencies'] and case['ready'].get('stall_bits'):
+        # bytes whose hand-off waited for ready for more than 2 bit periods while the next frame was on the line
+        base = 12 * period
+        agg['stalled_deliveries'] += sum(1 for x in obs['latencies'] if x > base + 2 * period)
     agg['ready_low_cycles'] += tr['dr'].count(0)
     if findings:
         report(run, case, tr, findings)
@@ -509,15 +553,23 @@ def run_case(run, case, rnd, agg):
 def run_check(run, tier, seed, shard):
     run.assume('bit period = the divider\'s realised period 2*floor(f_sys/(2*f_uart)) system clocks (the block prints a warning '
                'when this differs from the request); the software receiver samples at that period')
-    run.assume('receiver ready schedules are independent of valid and never low for more than half a bit period: UART has no '
-               'back-pressure, a consumer slower than the line is outside any satisfiable reading')
+    run.assume('receiver ready schedules are functions of time only, never of valid; base classes (always, rand, worst) are never low '
+               'for more than half a bit period; UART has no back-pressure, so a consumer that stays not-ready past the completion of '
+               'the next byte is outside any satisfiable reading')
+    run.assume('stall pacing classes (eof_stall: ready low from the end of a frame for 2..%d bit periods, then high; sparse: ready for one '
+               'clock every <= 4 bit periods; rand_long: random not-ready runs <= 4 bit periods): the unchanged deserializer holds a '
+               'finished byte while the next frame is received and must see ready twice (raise valid, hand over) before the next byte '
+               'completes; in a back-to-back burst bytes complete exactly 11 bit periods apart (10-bit frame + the idle bit the '
+               'serializer inserts), and the measured tolerance at every ratio 4..40 is a stall of 11 bit periods - 2 clocks from '
+               'end of frame; the classes stay <= %d bit periods (+2 clocks), and the delivery deadline of these runs is extended '
+               'by %d bit periods' % (STALL_TOLERATED_BITS, STALL_TOLERATED_BITS, STALL_TOLERATED_BITS + 1))
     run.assume('"later presented" is judged as bounded progress: delivered within %d bit periods of acceptance' % LATENCY_BOUND_BITS)
     run.assume('the producer keeps v stable while valid is high and unaccepted; v carries garbage while valid is low')
     run.assume('deserializer sampling is judged on the rx_sample wire: pulses inside a frame must lie in the central half of the '
                'bit cell (in a synchronous loop-back an edge-sampling receiver can still deliver, so delivery alone cannot see it)')
     specs = shard_slice(plan(tier, seed), shard)
     deadline = time.time() + (420 if tier == 'quick' else 2400)
-    agg = dict(per_ratio={}, gap_modes={}, ready_modes={}, back_to_back=0, ready_low_cycles=0, stalls=[], latency_hist={},
+    agg = dict(per_ratio={}, gap_modes={}, ready_modes={}, back_to_back=0, ready_low_cycles=0, stalls=[], latency_hist={}, stalled_deliveries=0,
                sample_hist={}, acc_ratio={})
     skipped = 0
     for spec in specs:
@@ -529,7 +581,7 @@ def run_check(run, tier, seed, shard):
         if res is not None and res[2]['accepted'] and len(run.samples) < 6 and spec['id'] % 7 == 0:
             tr, findings, obs = res
             run.sample(dict(fs=case['fs'], fu=case['fu'], bit_period=tr['period'], gap_mode=case['gap_mode'],
-                            ready_mode=case['ready']['mode'], first_bytes=[hex(x) for x in case['data'][:6]],
+                            ready_mode=case['ready'].get('name', case['ready']['mode']), first_bytes=[hex(x) for x in case['data'][:6]],
                             accepted=obs['accepted'], delivered=obs['delivered'], line_frames=obs['frames'],
                             max_latency_bits=round(max(obs['latencies']) / tr['period'], 2) if obs['latencies'] else None,
                             cycles=tr['cycles']))
@@ -554,6 +606,7 @@ def run_check(run, tier, seed, shard):
     run.extra['accepted_by_ready_mode'] = agg['ready_modes']
     run.extra['valid_held_acceptances'] = agg['back_to_back']
     run.extra['ready_low_cycles'] = agg['ready_low_cycles']
+    run.extra['deliveries_stalled_over_2_bit_periods'] = agg['stalled_deliveries']
     if shard is None:
         post_merge(run, tier, seed)
 
@@ -565,6 +618,8 @@ def post_merge(run, tier, seed):
             c.get('accepted'), c.get('delivered'), c.get('line_frames_decoded'), c.get('rx_samples_in_frames')))
     if not run.extra.get('valid_held_acceptances'):
         run.inconclusive.append('no back-to-back acceptance was observed')
+    if not run.extra.get('deliveries_stalled_over_2_bit_periods'):
+        run.inconclusive.append('no delivery was ever stalled for more than 2 bit periods')
     if not run.extra.get('ready_low_cycles'):
         run.inconclusive.append('the receiver was never not-ready')
 
